@@ -81,6 +81,7 @@ class CppCliBaseType(CppCliBaseCommentModel):
     config: CppCliConfig = Field(exclude=True, repr=False)
 
     @cached_property
+    @validate(keywords)
     def name(self):
         return self.decl.name.convert(self.config.identifier.type)
 
@@ -147,6 +148,7 @@ class CppCliBaseField(CppCliBaseCommentModel):
         return self.decl.name.convert(self.config.identifier.local)
 
     @cached_property
+    @validate(keywords)
     def property(self) -> str:
         return self.decl.name.convert(self.config.identifier.property)
 
@@ -190,6 +192,7 @@ class CppCliInterface(CppCliBaseType):
         decl: Interface.Method = Field(exclude=True, repr=False)
 
         @cached_property
+        @validate(keywords)
         def name(self) -> str:
             return self.decl.name.convert(self.config.identifier.method)
 
@@ -230,15 +233,18 @@ class CppCliRecord(CppCliBaseType):
         return "cppcli" in self.decl.targets
 
     @cached_property
+    @validate(keywords)
     def name(self):
         return self.base_name().convert(self.config.identifier.type)
 
     @cached_property
+    @validate(keywords)
     def derived_name(self) -> str:
         return Identifier(self.decl.name).convert(self.config.identifier.type)
 
     @computed_field
     @cached_property
+    @validate(keywords, separator="::")
     def typename(self) -> str:
         name = self.decl.name.convert(self.config.identifier.type)
         return f"::{self.namespace}::{name}"
@@ -372,5 +378,6 @@ class CppCliErrorDomain(CppCliBaseType):
 
     class CppCliErrorCode(CppCliBaseField):
         @cached_property
+        @validate(keywords)
         def name(self) -> str:
             return self.decl.name.convert(self.config.identifier.type)
